@@ -320,6 +320,14 @@ def struct_import_admits_missing_optional():
     return 'bool', cbool(ok)
 
 
+def struct_export_admits_missing_optional():
+    """StructOf.export_value: self.check_type(value, True), then the dict of exported members"""
+    b = _body(_dt_func('StructOf', 'export_value'))
+    ok = len(b) == 2 and _norm(b[0]) == 'self.check_type(value,True)' and \
+        _norm(b[1]) == 'returndict(((str(k),self.members[k].export_value(v))fork,vinlist(value.items())))'
+    return 'bool', cbool(ok)
+
+
 def scaled_import_integers_only():
     s = _norm(_dt_func('ScaledInteger', 'import_value'))
     ok = 'ifisinstance(value,float)andvalue.is_integer():value=int(value)' in s and \
@@ -333,8 +341,8 @@ def blob_import_strict_base64():
 
 
 FACTS += [array_import_checks_kind_and_length, tuple_import_checks_kind_and_length,
-          struct_import_admits_missing_optional, scaled_import_integers_only, blob_import_strict_base64]
+          struct_import_admits_missing_optional, struct_export_admits_missing_optional, scaled_import_integers_only, blob_import_strict_base64]
 for _cls, _fn in (('ArrayOf', 'import_value'), ('ArrayOf', 'check_type'), ('TupleOf', 'import_value'),
                   ('TupleOf', 'check_type'), ('StructOf', 'import_value'), ('StructOf', 'check_type'),
-                  ('ScaledInteger', 'import_value'), ('BLOBType', 'import_value')):
+                  ('StructOf', 'export_value'), ('ScaledInteger', 'import_value'), ('BLOBType', 'import_value')):
     FINGERPRINTS[f'{_cls}.{_fn}'] = (lambda c=_cls, f=_fn: _dt_func(c, f))
